@@ -24,7 +24,7 @@ def main(tier):
             raise vlib.Infra("Crash.tla design check failed: %s %s" % (r.violated, r.error))
         if design(work, False, "weak").violated != "Consistent":
             raise vlib.Infra("vacuous: Crash.tla without G_SingleBatch does not violate Consistent")
-        runs, blocks = (2, 6) if tier == "quick" else (25, 10)
+        runs, blocks = (1, 6) if tier == "quick" else (25, 10)
         tr = lc.nodex(binp, ["crash", sd, runs, blocks, 1], os.path.join(work, "crash.ndjson"))
         d = os.path.join(work, "tv")
         os.makedirs(d)
